@@ -186,7 +186,7 @@ def make_unit(iset, cube_name, cube_pred, memarch='PMSA', nregions=1, props=('C1
             it0 = ST.cpsr_field(cpsr0, 'it')
             exp_cpsr = ST.cpsr_with(cpsr0, it=it_advance_spec(it0))
             same = []
-            skip = lor(passed, unpred, cu, _is_bkpt(iset, instr))
+            skip = lor(passed, unpred, cu, _is_bkpt(iset, instr), land(bits(it0, 3, 0) != 0, _unpred_in_it_block(iset, instr)))
             for k, v in final.items():
                 if k in SCRATCH:
                     continue
@@ -239,6 +239,19 @@ def callsite_prop(qn, fam):
     if name.startswith('mem_') or name == 'translate_address':
         return fam if fam in ('C02', 'C03') else 'C02'   # address arithmetic wraps modulo 2^32 / data fits the size
     return fam or 'C18'       # helper used outside its domain: the instruction's result is not the architectural one
+
+
+def _unpred_in_it_block(iset, instr):
+    """encodings the architecture makes UNPREDICTABLE inside an IT block and that carry no condition of their own
+    (CBZ/CBNZ, IT, CPS, SETEND; ENTERX/LEAVEX)"""
+    if iset == 'thumb16':
+        cbz = land(bits(instr, 15, 12) == 0b1011, bit(instr, 10) == 0, bit(instr, 8) == 1)
+        it = land(bits(instr, 15, 8) == 0b10111111, bits(instr, 3, 0) != 0)
+        cps_setend = bits(instr, 15, 6) == 0b1011011001
+        return lor(cbz, it, cps_setend)
+    if iset == 'thumb32':
+        return land(bits(instr, 31, 20) == 0xF3B, bits(instr, 15, 8) == 0x8F, bits(instr, 7, 5) == 0)
+    return False
 
 
 def _is_bkpt(iset, instr):
